@@ -13,7 +13,7 @@ import copy
 
 from ..ref.refcoerce import Var
 from . import lexgen, opgen, schemair as S
-from .schemair import UNSET, EnumLit
+from .schemair import UNSET, EnumLit, SInput
 
 
 def walk_selection_lists(doc, schema):
@@ -616,6 +616,56 @@ def nullable_variable_at_defaulted_and_undefaulted_position(rng, doc, s):
         # the legal usage comes first in document order whenever the two lists are nested in this order
         sels1.append(good)
         sels2.append(bad)
+    return True
+
+
+@operator("VariablesInAllowedPositionChecker")
+def fragment_variable_fits_the_first_operation_only(rng, doc, s):
+    """A fragment that uses a variable is shared by two operations: the first declares the variable as the
+    usage needs it, a later copy of that operation declares it with a type that does not fit. Every operation
+    that reaches the usage has to be checked."""
+    cands = []
+    for x, sels, scope, owner in all_fields(doc, s):
+        if isinstance(owner, opgen.OOperation):
+            continue
+        st = s.types.get(scope)
+        f = st.field(x.name) if st is not None and st.kind in ("object", "interface") else None
+        if f is None:
+            continue
+        for a in f.args:
+            v = x.args.get(a.name)
+            if isinstance(v, Var):
+                for op in op_of_owner(doc, owner):
+                    if any(n == v.name for n, _t, _d in op.variables):
+                        cands.append((op, v.name, a))
+    # ... or the usage is the condition of @skip / @include somewhere in a fragment
+    cond = SInput("if", S.nn(S.named("Boolean")))
+    for sels, scope, owner in walk_selection_lists(doc, s):
+        if isinstance(owner, opgen.OOperation):
+            continue
+        for x in sels:
+            for dname, dargs in x.directives:
+                v = dargs.get("if") if dname in ("skip", "include") else None
+                if isinstance(v, Var):
+                    for op in op_of_owner(doc, owner):
+                        if any(n == v.name for n, _t, _d in op.variables):
+                            cands.append((op, v.name, cond))
+    if not cands:
+        return None
+    op, vname, a = rng.choice(cands)
+    second = copy.deepcopy(op)
+    second.name = "SecondUser%d" % len(doc.operations)
+    if op.name is None:
+        op.name = "FirstUser%d" % len(doc.operations)
+    base = S.unwrap(a.type)
+    other = "String" if base != "String" else "Int"
+    for i, (n, t, d) in enumerate(second.variables):
+        if n == vname:
+            if a.type[0] == "nonnull" and not a.has_default and rng.random() < 0.5:
+                second.variables[i] = (n, a.type[1], UNSET)      # nullable into non-null without any default
+            else:
+                second.variables[i] = (n, S.named(other), UNSET)
+    doc.operations.insert(doc.operations.index(op) + 1, second)
     return True
 
 
